@@ -80,3 +80,6 @@ Example ex_chars_ok : map chars_ok_b [hex_bytes "e3818261f0a0ae9f"; hex_bytes "e
 Proof. vm_compute. reflexivity. Qed.
 Example ex_hexz : hexz_bytes "01z000302z0004"%string = [1; 0; 0; 0; 2; 0; 0; 0; 0].
 Proof. vm_compute. reflexivity. Qed.
+(* the two forms of a unit's offset: narrow (bits 10..30) and wide (bit 9 set: stored >> 8) *)
+Example ex_offset_forms : map offset [3 * 1024; 3 * 1024 + 512; 512; 1024 + 256] = [3; 768; 0; 1].
+Proof. vm_compute. reflexivity. Qed.
